@@ -148,6 +148,7 @@ def is_mutable_recipe(recipe):
 # -- pools ---------------------------------------------------------------------
 
 _KEYS = ["a", "b", "c", "d"]
+_KEYS_FALSY = _KEYS + [""]  # the empty string is a legitimate key
 
 
 def leaf_recipe(rng):
@@ -212,7 +213,7 @@ def conf_recipe(tk, rng, size=None):
     n = rng.randint(0, 3) if size is None else size
     if t.kind == "list":
         if t.elem == "kleaf":
-            return ["list", [kleaf_recipe(rng, k) for k in rng.sample(_KEYS, n)]]
+            return ["list", [kleaf_recipe(rng, k) for k in rng.sample(_KEYS_FALSY, n)]]
         return ["lit", [build(elem_conf(t.elem, rng), {}) for _ in range(n)]] if t.elem in ("int", "str") else ["list", [elem_conf(t.elem, rng) for _ in range(n)]]
     if t.kind == "dict":
         keys = rng.sample(_KEYS + [""], n)
@@ -225,9 +226,9 @@ def conf_recipe(tk, rng, size=None):
         pool = [0, 1, 2, 5, -1] if t.elem == "int" else ["", "a", "b", "zz"]
         return ["set", rng.sample(pool, min(n, len(pool)))]
     if t.kind == "klist":
-        return ["klist", [kleaf_recipe(rng, k) for k in rng.sample(_KEYS, n)]]
+        return ["klist", [kleaf_recipe(rng, k) for k in rng.sample(_KEYS_FALSY, n)]]
     if t.kind == "kset":
-        return ["kset", [kleaf_recipe(rng, k) for k in rng.sample(_KEYS, n)]]
+        return ["kset", [kleaf_recipe(rng, k) for k in rng.sample(_KEYS_FALSY, n)]]
     raise ValueError(tk)
 
 
@@ -258,6 +259,9 @@ def nonconf_recipes(tk):
         out += [(R_lit(5), "non_iterable"), (["obj"], "object")]
         if t.kind == "klist":
             out.append((["list", [["kleaf", "a", {}], ["kleaf", "a", {"v": 1}]]], "duplicate_key"))
+            # a ready-made (unparameterised) keyed container: already of the declared container class, only its items are wrong
+            for bad, tag in elem_nonconf(t.elem):
+                out.append((["klist_raw", [good, bad]], f"ready_made_element:{tag}"))
     elif t.kind == "dict":
         good = elem_conf(t.elem, __import__("random").Random(1), "a")
         for bad, tag in elem_nonconf(t.elem):
@@ -272,6 +276,9 @@ def nonconf_recipes(tk):
             else:
                 out.append((["list", [good, bad]], f"element:{tag}"))
         out += [(R_lit(5), "non_iterable")]
+        if t.kind == "kset":
+            for bad, tag in elem_nonconf(t.elem):
+                out.append((["kset_raw", [good, bad]], f"ready_made_element:{tag}"))
     return out
 
 
@@ -279,6 +286,8 @@ def build_ext(recipe, ns):
     """build() plus the 'dictk' recipe (dict with non-string keys), used only by non-conforming pools."""
     if recipe[0] == "dictk":
         return {build_ext(k, ns): build_ext(v, ns) for k, v in recipe[1]}
+    if recipe[0] in ("klist_raw", "kset_raw"):
+        return ns["KeyedList" if recipe[0] == "klist_raw" else "KeyedSet"]([build_ext(r, ns) for r in recipe[1]], key=ns["rawkey"])
     if recipe[0] == "list":
         return [build_ext(r, ns) for r in recipe[1]]
     if recipe[0] == "dict":
@@ -289,6 +298,8 @@ def build_ext(recipe, ns):
 def src_ext(recipe):
     if recipe[0] == "dictk":
         return "{" + ", ".join(f"{src_ext(k)}: {src_ext(v)}" for k, v in recipe[1]) + "}"
+    if recipe[0] in ("klist_raw", "kset_raw"):
+        return ("KeyedList" if recipe[0] == "klist_raw" else "KeyedSet") + "([" + ", ".join(src_ext(r) for r in recipe[1]) + "], key=rawkey)"
     if recipe[0] == "list":
         return "[" + ", ".join(src_ext(r) for r in recipe[1]) + "]"
     if recipe[0] == "dict":
@@ -348,6 +359,7 @@ class ClassDecl:
     props: List[PropDecl] = dataclasses.field(default_factory=list)
     post_init: bool = False
     post_copy: bool = False
+    delegating_init: bool = False  # hand-written __init__(self, **kwargs) that forwards to the parent class's constructor
 
 
 @dataclasses.dataclass
@@ -415,17 +427,35 @@ class ModuleDecl:
                     return c.overflow
         return None if what != "frozen" else False
 
+    def dnc_status(self, name, attr):
+        """
+        Is `attr` carried by reference into copies of instances of class `name`? True / False / None (not documented).
+        A spec class that (re-)declares the attribute decides with its own settings (Attr flag, decorator list or bool);
+        a spec class that inherits it keeps the parent's setting unless it passes do_not_copy itself, in which case being
+        named decides - an explicit list that leaves out an attribute inherited as do_not_copy is not documented.
+        """
+        flag = False
+        seen = False
+        for c in reversed(self.lineage(name)):
+            if c.kind != "spec":
+                continue
+            here = next((a for a in c.attrs if a.name == attr and a.annotated), None)
+            if here is None and not seen:
+                continue
+            specified = c.dnc_class or bool(c.dnc_list)
+            if here is not None:
+                seen = True
+                flag = bool(here.do_not_copy) or c.dnc_class or attr in c.dnc_list
+            elif not specified:
+                pass
+            elif c.dnc_class or attr in c.dnc_list:
+                flag = True
+            else:
+                flag = None if flag in (True, None) else False
+        return flag
+
     def is_dnc_attr(self, name, attr):
-        """Is `attr` carried by reference into copies of instances of class `name`?"""
-        c = self.nearest_spec(name)
-        owner, decl = self.attrs_of(name)[attr]
-        if decl.do_not_copy:
-            return True
-        # decorator list applies to attributes declared by that decorator's class; for inherited attributes the
-        # nearest spec class's list (or bool) decides
-        if owner is c:
-            return attr in c.dnc_list
-        return attr in c.dnc_list
+        return self.dnc_status(name, attr) is True
 
     def preparer_of(self, name, attr):
         """Nearest `_prepare_<attr>` along the lineage (methods are inherited)."""
@@ -483,6 +513,11 @@ NonNeg = bounded(int, ge=0)
 class Opaque:
     def __repr__(self):
         return "Opaque()"
+
+
+def rawkey(x):
+    k = getattr(x, "k", None)
+    return k if isinstance(k, str) else f"<{x!r}>"
 """
 
 LEAF_SRC = """
@@ -588,9 +623,11 @@ def render_class(m: ModuleDecl, c: ClassDecl):
         reads = ", ".join(f"_ro(self, {d!r})" for d in p.deps)
         body.append(f"\n    @spec_property({', '.join(opts)})\n    def {p.name}(self):\n        PROBE.enter('get:{p.name}')\n        return [{reads}]")
     if c.post_init:
-        body.append(f"\n    def __post_init__(self):\n        PROBE.enter('post_init:{c.name}')")
+        body.append(f"\n    def __post_init__(self):\n        PROBE.enter('post_init:{c.name}', self)")
     if c.post_copy:
-        body.append(f"\n    def __post_copy__(self):\n        PROBE.enter('post_copy:{c.name}')")
+        body.append(f"\n    def __post_copy__(self):\n        PROBE.enter('post_copy:{c.name}', self)")
+    if c.delegating_init:
+        body.append(f"\n    def __init__(self, **kwargs):\n        PROBE.enter('init:{c.name}', self)\n        {c.base}.__init__(self, **kwargs)")
     if not body:
         body.append("    pass")
     return "\n".join(out + body) + "\n"
@@ -650,8 +687,38 @@ def make_transforms(probe):
         "to_obj": lambda v: object(),
         "to_none": lambda v: None,
         "to_str": lambda v: "bad",
+        "to_int": lambda v: 3,
+        "to_float": lambda v: float(v) if isinstance(v, int) else 1.5,  # compares equal to the old value, wrong type
+        "to_key": lambda v: getattr(v, "k", "a"),  # a value of the key type where the keyed element is expected
     }
     return {k: wrap(k, f) for k, f in table.items()}
+
+
+BAD_RESULT_FOR_ELEM = {
+    "int": ["to_obj", "to_none", "to_str", "to_float"],
+    "str": ["to_obj", "to_none", "to_int"],
+    "leaf": ["to_obj", "to_none", "to_str", "to_int"],
+    "kleaf": ["to_obj", "to_none", "to_key", "to_int"],
+}
+
+
+def bad_transform(rng, tk=None, elem=None):
+    """Name of a transform whose result does not conform to attribute type `tk` / element type `elem`."""
+    if elem is not None:
+        return rng.choice(BAD_RESULT_FOR_ELEM[elem])
+    if tk in ("int", "int2", "bnd"):
+        return rng.choice(["to_obj", "to_none", "to_str", "to_float"])
+    if tk == "optint":
+        return rng.choice(["to_obj", "to_str", "to_float"])
+    if tk == "union":
+        return rng.choice(["to_obj", "to_none", "to_float"])
+    if tk in ("str", "lit"):
+        return rng.choice(["to_obj", "to_none", "to_int"])
+    if tk == "float":
+        return rng.choice(["to_obj", "to_none", "to_str"])
+    if tk == "leaf":
+        return rng.choice(["to_obj", "to_none", "to_str", "to_int"])
+    return rng.choice(["to_obj", "to_int"])
 
 
 def model_transform(name, v):
@@ -872,6 +939,9 @@ def gen_module(rng, profile=None):
             d[0] = "lit"
             P.attrs.append(AttrDecl(tk=a2.tk, default=d, annotated=False))
         classes.append(P)
+    if profile.get("delegating_init") and rng.random() < profile["delegating_init"]:
+        # a subclass (decorated or plain) whose hand-written constructor forwards to the generated one of its parent
+        classes.append(ClassDecl(name="D", kind=rng.choice(["spec", "plain"]), base=last.name, delegating_init=True, bootstrap=rng.random() < 0.5))
     return ModuleDecl(classes=classes, leaf_bootstrap=rng.random() < 0.7)
 
 
